@@ -25,8 +25,8 @@ def run(prop, tier, seed, work, ev):
     if r.rc != 0 or not os.path.exists(e["OUT"]):
         raise ToolError("Gen_Cmp failed:\n" + r.tail())
     rejects = eng_eval.run_and_judge("all pairs x six operators (document text and literal forms)", e["OUT"], work, ev, drv, nsamples=3)
-    rejects += eng_eval.pool_families(["bool", "alias", "litop", "keyword", "cmpchain", "absent", "litpost", "foldlit"], work, ev, drv)
-    rejects += eng_eval.pools_matching(r"==|!=|<|>", "a comparator", work, ev, drv, skip=("bool", "alias", "litop", "keyword", "cmpchain", "absent", "litpost", "foldlit"))
+    rejects += eng_eval.pool_families(["bool", "alias", "litop", "keyword", "cmpchain", "absent", "litpost", "foldlit", "deepeq", "zeros"], work, ev, drv)
+    rejects += eng_eval.pools_matching(r"==|!=|<|>", "a comparator", work, ev, drv, skip=("bool", "alias", "litop", "keyword", "cmpchain", "absent", "litpost", "foldlit", "deepeq", "zeros"))
     rejects += eng_eval.varapi_phase(work, ev, drv)
     if tier == "thorough":
         import subprocess
